@@ -462,6 +462,21 @@ func ruleC15ValidateAll(c *Ctx) {
 		extra = append(extra, c.pos(g.At))
 	}
 	c.R.Check(len(extra) == 0, rule, "no-schema-skipped", c.pos(evalCall), "a schema with a default can skip validation of that default only by failing", fmt.Sprintf("schemas can be skipped by default validation on conditions other than having no default (guards at %v): an invalid default there is never reported, and ApplyDefaults later inserts a value that Validate rejects", extra))
+	// (the per-schema work may sit in a helper of the function that walks the tree: climb to the walker)
+	for hops := 0; hops < 3; hops++ {
+		site := soleCaller(vd)
+		if site == nil || site.Parent() == res {
+			break
+		}
+		up := site.Parent()
+		for up.Parent() != nil {
+			up = up.Parent()
+		}
+		if up == res || !c.P.InPkg(up) {
+			break
+		}
+		vd = up
+	}
 	// full-tree traversal: the iterator comes from a method whose closure is recursive
 	full := false
 	for _, f := range core.WithAnon(vd) {
